@@ -39,14 +39,28 @@ def corpus_dir(fam, tier, sd):
 
 
 def prune_corpora(keep):
+    """Bounds the disk used by recorded corpora: beyond the twelve most recent ones,
+    directories nobody touched for six hours are removed. A directory another check
+    is recording or validating right now is recent by construction, so concurrent
+    checks (against different trees) never lose their corpus."""
     root = os.path.join(vlib.WORK, "corpus")
     if not os.path.isdir(root):
         return
-    ds = sorted((os.path.getmtime(os.path.join(root, d)), d) for d in os.listdir(root))
-    for _, d in ds[:-6]:
+
+    def newest(p):
+        try:
+            return max([os.path.getmtime(p)] + [os.path.getmtime(os.path.join(p, f)) for f in os.listdir(p)])
+        except OSError:
+            return time.time()
+    ds = sorted((newest(os.path.join(root, d)), d) for d in os.listdir(root) if os.path.isdir(os.path.join(root, d)))
+    for mt, d in ds[:-12]:
         p = os.path.join(root, d)
-        if p != keep:
+        if p != keep and time.time() - mt > 6 * 3600:
             shutil.rmtree(p, ignore_errors=True)
+            try:
+                os.remove(p + ".lock")
+            except OSError:
+                pass
 
 
 def record_corpus(fam, tier, sd):
